@@ -92,4 +92,4 @@ META = dict(
     technique="runtime monitoring: reference-calendar oracle + canaries + TZ cross-digests + Python datetime second opinion + ASan/UBSan",
 )
 
-CFG["rule"] += (" " + 'Additions: wall-clock readings at and just before the epoch with west offsets; readings inside daylight-saving switch windows; stage asan_dst runs under TZ=EST5EDT,M3.2.0,M11.1.0 with the local-accessor oracle off; stages mt_tsan/mt_rel; stale aws_last_error()/errno (ERANGE among them) before every parse and format call.')
+CFG["rule"] += (" " + 'Additions: wall-clock readings at and just before the epoch with west offsets; readings inside daylight-saving switch windows; stage asan_dst runs under TZ=EST5EDT,M3.2.0,M11.1.0 with the local-accessor oracle off; stages mt_tsan/mt_rel; stale aws_last_error()/errno (ERANGE among them) before every parse and format call. A quarter of the generated fractions have 10-40 digits.')
